@@ -54,7 +54,7 @@ var c15Par1Extra = []string{"sub/x", "ａ/ｘ", "．．/x", "‥/x", "..／x", "
 func (c *c15) Cases(tier string, seed int64) []core.Case {
 	var cs []core.Case
 	r := core.Rng("C15", tier, seed)
-	reps := map[string]int{"quick": 1, "thorough": 4}[tier]
+	reps := map[string]int{"quick": 1, "thorough": 10}[tier]
 	names := c15Corpus("@ABS@")
 	for _, f := range []string{"par2", "par1"} {
 		list := names
